@@ -84,17 +84,17 @@ type lexState struct {
 	valueOf map[types.Object]types.Object // value := input[start:pos]  ->  start
 	boolDef map[types.Object]ast.Expr     // isSpace := r == ' '  (valid until the position moves)
 	// facts about the token being scanned (reset when Next is entered)
-	sig        bool                                   // a byte other than a blank may have been consumed
-	nl         int                                    // line breaks consumed minus increments of the line counter
-	nlUnknown  bool                                   // a byte that may or may not be a line break was consumed
-	sawNL      bool                                   // a line break was consumed
-	atStartSet bool                                   // the line-start flag was set to true
-	flagCleared bool                                  // the line-start flag was set to false: this token is scanned at the start of a line
-	posSnap    map[types.Object]bool                  // start := l.position(): snapshot variables that hold a Position
-	sigAt      map[types.Object]bool                  // per snapshot: value of sig when it was taken
-	lead       map[types.Object]bool                  // per snapshot: input was consumed between an earlier position snapshot and this one
-	notAfter   map[types.Object]map[types.Object]bool // per snapshot o: snapshots taken at a position <= o's (existing when o was taken)
-	epoch      []types.Object                         // snapshots taken since the last advance (all at the current position)
+	sig         bool                                   // a byte other than a blank may have been consumed
+	nl          int                                    // line breaks consumed minus increments of the line counter
+	nlUnknown   bool                                   // a byte that may or may not be a line break was consumed
+	sawNL       bool                                   // a line break was consumed
+	atStartSet  bool                                   // the line-start flag was set to true
+	flagCleared bool                                   // the line-start flag was set to false: this token is scanned at the start of a line
+	posSnap     map[types.Object]bool                  // start := l.position(): snapshot variables that hold a Position
+	sigAt       map[types.Object]bool                  // per snapshot: value of sig when it was taken
+	lead        map[types.Object]bool                  // per snapshot: input was consumed between an earlier position snapshot and this one
+	notAfter    map[types.Object]map[types.Object]bool // per snapshot o: snapshots taken at a position <= o's (existing when o was taken)
+	epoch       []types.Object                         // snapshots taken since the last advance (all at the current position)
 }
 
 // aliasVar: inside a callee, parameter p stands for the caller's variable a (a snapshot, or an alias of the
@@ -343,16 +343,16 @@ const (
 )
 
 type lexInterp struct {
-	quiet    int  // > 0: a speculative interpretation; constructs outside the vocabulary only set quietHit
-	quietHit bool
+	quiet         int // > 0: a speculative interpretation; constructs outside the vocabulary only set quietHit
+	quietHit      bool
 	nStop, nFirst int
-	c       *Ctx
-	pk      *packagesPackage
-	info    *types.Info
-	lexerT  types.Type
-	methods map[string]*ast.FuncDecl
-	funcs   map[types.Object]*ast.FuncDecl
-	stack   []string
+	c             *Ctx
+	pk            *packagesPackage
+	info          *types.Info
+	lexerT        types.Type
+	methods       map[string]*ast.FuncDecl
+	funcs         map[types.Object]*ast.FuncDecl
+	stack         []string
 	// results
 	nReturns  int
 	nAdvances int
@@ -387,6 +387,7 @@ type lexFrame struct {
 	parent   *lexFrame
 	funcArgs map[types.Object]ast.Expr
 	consts   map[types.Object]int64
+	strs     map[types.Object]string
 }
 
 // funcVal: a predicate given as a function value: a declared function / method, or a function literal together
@@ -395,6 +396,15 @@ type funcVal struct {
 	typ  *ast.FuncType
 	body *ast.BlockStmt
 	fr   *lexFrame
+}
+
+func (fr *lexFrame) strConstOf(o types.Object) (string, bool) {
+	for f := fr; f != nil; f = f.parent {
+		if v, ok := f.strs[o]; ok {
+			return v, true
+		}
+	}
+	return "", false
 }
 
 func (fr *lexFrame) constOf(o types.Object) (int64, bool) {
@@ -1252,6 +1262,18 @@ func (li *lexInterp) compare(x *ast.BinaryExpr, in []*lexState, fr *lexFrame) (t
 		if !ok {
 			if o := li.info.Uses[identOf(cst)]; o != nil {
 				cv, ok = fr.constOf(o)
+			}
+		}
+		if !ok {
+			// single[0] for a string parameter the caller bound to a literal
+			if ix, isIx := ast.Unparen(cst).(*ast.IndexExpr); isIx {
+				if k, isK := constInt(li.info, ix.Index); isK {
+					if o := li.info.Uses[identOf(ix.X)]; o != nil {
+						if str, has := fr.strConstOf(o); has && k >= 0 && int(k) < len(str) {
+							cv, ok = int64(str[k]), true
+						}
+					}
+				}
 			}
 		}
 		if ok {
@@ -2180,6 +2202,11 @@ func (li *lexInterp) inline(fd *ast.FuncDecl, in []*lexState, fr *lexFrame, at a
 					po := li.info.Defs[nm]
 					if _, isFn := po.Type().Underlying().(*types.Signature); isFn {
 						sub.funcArgs[po] = call.Args[i]
+					} else if tv, ok := li.info.Types[call.Args[i]]; ok && tv.Value != nil && tv.Value.Kind() == constant.String {
+						if sub.strs == nil {
+							sub.strs = map[types.Object]string{}
+						}
+						sub.strs[po] = constant.StringVal(tv.Value)
 					} else if v, ok := constInt(li.info, call.Args[i]); ok {
 						sub.consts[po] = v
 					} else if o := li.info.Uses[identOf(call.Args[i])]; o != nil {
